@@ -113,7 +113,9 @@ def run_read_case(ctx, case):
 
 # ---- seeded documents and layouts (rendered by TLC) --------------------------------------------------
 LETTERS = string.ascii_letters
-TEXTCH = string.ascii_letters + string.digits + "_./:@$%-+=~[]"
+# every printable ASCII character except '#' (33..126); blanks and '#' are excluded by the quantifier
+TEXTCH = "".join(chr(c) for c in range(33, 127) if chr(c) != "#")
+PUNCT = "".join(ch for ch in TEXTCH if not ch.isalnum())
 
 
 def gen_label(rng, used):
@@ -157,9 +159,18 @@ def gen_text_token(rng):
     while True:
         k = rng.random()
         if k < 0.1:
-            tok = rng.choice(["data_x", "data_", "TS_01/12.mrc", "a", "12ab", "1e5x", "x1e5", "A", "B", "-x", "+y", "1.2.3v"])
-        else:
+            tok = rng.choice(["data_x", "data_", "TS_01/12.mrc", "a", "12ab", "1e5x", "x1e5", "A", "B", "-x", "+y", "1.2.3v",
+                              'ab"c', '"ab"', "'q'", "a,b", "a;b", "a\\b", "a|b", "$x", "x=1", "k:v", '""x', "x'", "`t`", "a,\"b"])
+        elif k < 0.55:
             tok = "".join(rng.choice(TEXTCH) for _ in range(rng.randint(1, 14)))
+        elif k < 0.8:
+            # a word with one or two punctuation characters in it (quotes, commas, backslashes, ...)
+            w = [rng.choice(LETTERS + string.digits) for _ in range(rng.randint(1, 8))]
+            for _ in range(rng.randint(1, 2)):
+                w.insert(rng.randint(0, len(w)), rng.choice(PUNCT))
+            tok = "".join(w)
+        else:
+            tok = "".join(rng.choice(LETTERS + string.digits + "_./:-") for _ in range(rng.randint(1, 14)))
         if is_safe_text(tok):
             return tok
 
